@@ -19,6 +19,7 @@ EXPLANATION = (
     "THRESHOLD_EST(eye, M); soft = PPM_DECODER(SDD(x, M), M). C03.4: the sampling instant of both chains is the offset at which DAC places "
     "its Gaussian pulse pair (sps//2, sps//2-1) and lies inside the NRZ slot. C03.6: for a field without a noise component, in both polarisation layouts, PD hands electrical_signal a signal current and a noise current with one entry per sample each (coarse shape typing scalar / N / 2xN of the value forms). C03.7: the eye the OOK receiver measures is folded from a record cut to whole two-slot periods (any slot count, odd included, is accepted). C03.8: the PPM soft decision sums every sample of a slot and takes the argmax per symbol (for every sps). The transfer functions of the blocks themselves are decided "
     "under C05, C06, C09, C11, C12, C17. NOT decided: that the composed chain recovers every bit pattern for every configuration.")
+EXPLANATION += (" Added after the audit wave: C03.1 the counter converts each of Tx, Rx on its own (four raw/sequence combinations); C03.9 the dispersive element is C07's all-pass with or without retH; C03.10 GET_EYE splits the ON/OFF populations at a value computed from the level estimates, never at an element picked out of the record (strict comparisons with a sample value can empty a population: nan threshold); C03.11 on a time axis folding k >= 2 slots per trace the populations are not drawn from one sub-slot window of the raw axis (every second slot only: data whose ON slots share a parity leave mu1 = nan).")
 TRUSTED = ["the per-block properties C05, C06, C09, C11, C12, C17", "numpy comparison/sum semantics"]
 LEVEL_TEXT = ("Partial, structural: decides the wiring of ook.DSP / ppm.DSP (sampling instant, comparator, threshold source, decoder order) and the "
               "error-counter formula - necessary conditions of C03. The end-to-end claim over all bit patterns and configurations is not decided by "
@@ -117,6 +118,29 @@ def run(ctx):
         ok = len(rets) == 1 and isinstance(rets[0].value, Form) and rets[0].value in (want, alt, alt2)
         ctx.check("C03.1", ok, fi, rets[0].node if rets else fi.node, f"{mod}.BER_analizer('counter') = {rets[0].value if rets else None!r}"[:300], "mismatching positions / length (Tx truncated to len(Rx))",
                   "the counter is not sum(Tx[:len(Rx)] != Rx)/len: identical sequences do not give 0 or k flipped bits do not give k/n")
+    # the counter is fed what the link hands over: the bits given to DAC (an array or a list) and what the DSP returns (a binary_sequence)
+    # - any mix of the two container kinds must be counted, not only two of a kind
+    for mod, kwname in (("ook", "kargs"), ("ppm", "kwargs")):
+        fi = pkg.func(f"{mod}.BER_analizer")
+        kwname = fi.node.args.kwarg.arg if fi.node.args.kwarg else kwname
+        for raw in ("Tx", "Rx"):
+            other = "Rx" if raw == "Tx" else "Tx"
+            it = Interp(pkg, assumptions={"mode": "counter", raw: ("inst", "numpy.ndarray", "ndarray")},
+                        param_values={kwname: DictV([(Const(raw), S(raw)), (Const(other), param_object("binary_sequence", other))])})
+            outs = it.run(fi)
+            rets = [o for o in outs if o.kind == "return"]
+            bad = [b for b in it.bad_attrs]
+            # binary_sequence members (.len(), .data) applied to what is still the raw array: AttributeError at run time
+            for o_ in rets:
+                if isinstance(o_.value, Form):
+                    for a_ in o_.value.atoms():
+                        base_ = a_[1] if a_[0] in ("meth", "attr") else None
+                        member = a_[2] if a_[0] in ("meth", "attr") else None
+                        if member in ("len", "data", "ones", "zeros") and isinstance(base_, Form) and S(raw).single_atom() in base_.atoms() and base_.sym_name() is None:
+                            bad.append((fi, o_.node, base_, member))
+            ctx.check("C03.1", bool(rets) and not bad, fi, bad[0][1] if bad else fi.node, f"{mod}.BER_analizer('counter') with {raw} a raw array and {other} a binary_sequence", "both converted, then counted",
+                      (f"`{src_of(bad[0][1])}`: the raw array is used as a binary_sequence (ndarray has no attribute `{bad[0][3]}`) - only two operands of the same kind are handled" if bad
+                       else "no returning path for this mix of container kinds"))
     # ---------------------------------------------------------------- C03.2 ook.DSP
     fi = pkg.func("ook.DSP")
     for bw in (None, "notnone"):
@@ -262,6 +286,10 @@ def run(ctx):
     # the dispersive element of the link is the all-pass of C07, whichever way it is called (with or without retH)
     from .c07 import rule_dm
     rule_dm(ctx, "C03.9", "C03.9")
+    from .c17 import rule_boundary
+    rule_boundary(ctx, "C03.10")
+    from .c17 import rule_every_slot
+    rule_every_slot(ctx, "C03.11")
     # every stage of the link reads the sampling grid in force when it is CALLED (a default or cache bound earlier describes another grid)
     check_late_binding(ctx, "C03.5", ["ook.DSP", "ppm.DSP", "ook.BER_analizer", "ppm.BER_analizer", "devices.DAC", "devices.MZM", "devices.PD", "devices.SAMPLER", "devices.LPF",
                                       "devices.GET_EYE", "devices.DM", "ppm.PPM_ENCODER", "ppm.PPM_DECODER", "ppm.HDD", "ppm.SDD", "ppm.THRESHOLD_EST", "ook.THRESHOLD_EST"])
@@ -272,3 +300,5 @@ def run(ctx):
     ctx.require_min("C03.6", 4)
     ctx.require_min("C03.7", 2)
     ctx.require_min("C03.8", 2)
+    ctx.require_min("C03.10", 2)
+    ctx.require_min("C03.11", 2)
